@@ -17,7 +17,7 @@ META = {
     'bounds': {'quick': 'n<=3 states, symbolic non-negative integer counts, symbolic threshold >= 1, renumber on/off, '
                         'dense ndarray and COO input', 'thorough': 'n<=4'},
     'stubs': ['scipy.sparse.csgraph.connected_components = symbolic Warshall closure honouring connection=/directed=, classes '
-              'numbered by smallest member (scipy numbering unspecified)', 'coo_matrix(dense)/toarray = SymCOO'],
+              'numbered by smallest member (scipy numbering unspecified)', 'coo_matrix(dense)/toarray = SymCOO; COO matrices with repeated coordinates (count = sum of stored entries, as assigns_to_counts builds them)'],
     'assumptions': ['threshold >= 1', 'oracle reachability is computed independently of the stub (own closure over the '
                     'thresholded edge relation)', 'ties in component population: any maximiser accepted'],
     'outside': ["scipy's own SCC implementation", 'sparse formats other than COO'],
@@ -85,9 +85,24 @@ def trim_job(n, renumber=True, form='dense', maxcount=None):
     def path(ctx):
         C = [[core.fresh_int('c', 0, maxcount) for _ in range(n)] for _ in range(n)]
         thr = core.fresh_int('thr', 1, None)
+        ent = None
+        if form == 'coo-dup':
+            # a COO matrix with repeated coordinates, as assigns_to_counts builds them: the count of a cell is the SUM of
+            # its stored entries
+            dup = [(i, j) for i in range(n) for j in range(n) if i != j][:4]
+            ent = [(C[i][j], i, j) for i in range(n) for j in range(n)]
+            for (i, j) in dup:
+                x = core.fresh_int('c2', 0, maxcount)
+                ent.append((x, i, j))
+                C[i][j] = C[i][j] + x
         A = funcs.np_array(C, dtype=int)
         A0 = A.copy()
-        arg = A if form == 'dense' else stubs.SymCOO(A)
+        if form == 'dense':
+            arg = A
+        elif form == 'coo':
+            arg = stubs.SymCOO(A)
+        else:
+            arg = stubs.SymCOO([e[0] for e in ent], [e[1] for e in ent], [e[2] for e in ent], (n, n), np.dtype(int))
         exc = None
         try:
             mapping, trimmed = tm.trim_disconnected(arg, threshold=thr, renumber_states=renumber)
@@ -105,7 +120,13 @@ def trim_job(n, renumber=True, form='dense', maxcount=None):
             out = {'inputs': {'counts': cv, 'threshold': tv, 'renumber_states': renumber, 'form': form}}
             import scipy.sparse
             a = np.array(cv, dtype=int)
-            argc = a.copy() if form == 'dense' else scipy.sparse.coo_matrix(a)
+            if form == 'coo-dup':
+                ev_ = [(int(ev(model, e[0])), e[1], e[2]) for e in ent]
+                out['inputs']['stored_entries'] = [list(t) for t in ev_]
+                argc = scipy.sparse.coo_matrix((np.array([t[0] for t in ev_]), (np.array([t[1] for t in ev_]), np.array([t[2] for t in ev_]))),
+                                               shape=(n, n))
+            else:
+                argc = a.copy() if form == 'dense' else scipy.sparse.coo_matrix(a)
             with core.concrete_mode():
                 try:
                     m2, t2 = tm.trim_disconnected(argc, threshold=tv, renumber_states=renumber)
@@ -141,7 +162,7 @@ def jobs(tier):
     q = tier == 'quick'
     for n in ((1, 2, 3) if q else (1, 2, 3, 4)):
         for ren in (True, False):
-            for form in ('dense', 'coo'):
+            for form in ('dense', 'coo') + (('coo-dup',) if 2 <= n <= 3 else ()):
                 J.append(dict(module='harness.C11', func='trim_job', name='trim[n=%d,renumber=%s,%s]' % (n, ren, form),
                               kwargs=dict(n=n, renumber=ren, form=form), sig_prefix='trim_disconnected',
                               deadline_s=280 if q else 1700))
